@@ -27,7 +27,9 @@ RULE = ("event streams of 0-6 blocks: optional id (also empty, with NUL), event 
         "every read and compared with the last id/retry field seen so far on any connection.  Delivery: the caller "
         "passes its own containers (events deque empty or preloaded; requests, responses, redirects, msg) to the real "
         "Client (over a scripted socket), to Respondent and to EventSource; the objects must be used as given "
-        "(identity) and the stream's events must arrive in the caller's deque behind what it already held.  "
+        "(identity) and the stream's events must arrive in the caller's deque behind what it already held; at the "
+        "Client level the peer's close becomes readable in the same service pass as its last event bytes, one pass "
+        "later, after idle passes, or never.  "
         "Non-trivial: >= 2 events, >= 2 terminator kinds and >= 1 cut between the CR and LF of a CRLF")
 MODELLED = ["UTF-8 decoding (events are compared as UTF-8 bytes; generated streams are valid UTF-8)",
             "int() of an ASCII digit string up to 4300 digits (as decimal value)",
@@ -201,8 +203,9 @@ def run_history(init, conns):
 class _SseSock:
     """socket of a scripted event-stream server: after the request head arrived it releases the response one
     fragment per tick()"""
-    def __init__(self, frags):
+    def __init__(self, frags, fin=None):
         self.frags, self.rx, self.ready, self.armed, self.closed = list(frags), bytearray(), bytearray(), False, False
+        self.fin, self.eof = fin, False     # fin: None = the peer never closes; k = it closes k passes after its last bytes
     def setsockopt(self, *a): pass
     def getsockopt(self, *a): return 1 << 20
     def setblocking(self, flag): pass
@@ -221,10 +224,18 @@ class _SseSock:
         if self.ready:
             d = bytes(self.ready[:n]); del self.ready[:n]
             return d
+        if self.eof:
+            return b""
         raise BlockingIOError(errno.EAGAIN, "would block")
     def tick(self):
         if self.armed and self.frags:
             self.ready += self.frags.pop(0)
+            if not self.frags and self.fin == 0:
+                self.eof = True        # the last bytes and the FIN are readable in the same pass
+        elif self.armed and self.fin is not None and not self.eof:
+            self.fin -= 1
+            if self.fin <= 0:
+                self.eof = True
 
 
 def run_deliver(case):
@@ -257,8 +268,8 @@ def run_deliver(case):
             es = p.eventSource
             ident["source.events"] = es.events is mine
         else:
-            frags = [head] + reads
-            sock = _SseSock(frags)
+            frags = K.cut(head, case.get("head_cuts", [])) + reads
+            sock = _SseSock(frags, case.get("fin"))
 
             class _Conn(tcp.Client):
                 def open(self_):
@@ -276,7 +287,7 @@ def run_deliver(case):
                      "respondent.msg": client.respondent.msg is conn.rxbs}
             client.reopen()
             client.request(method="GET", path="/stream")
-            for _ in range(len(frags) + 6):
+            for _ in range(len(frags) + 6 + (case.get("fin") or 0)):
                 sock.tick()
                 client.service()
                 tymist.tick()
@@ -541,6 +552,12 @@ def _gen_deliver(rng, level=None, preload=None):
     case["reads"] = [h(x) for x in K.cut(wire, K._rand_cuts(rng, wire))]
     if level != "source":
         case["head"] = h(gen_head(rng, kind))
+    if level == "client":
+        # the peer closes: in the very pass that delivers its last bytes, one pass later, after idle passes, or never
+        case["fin"] = rng.choice([None, 0, 0, 0, 1, 2, 4])
+        if rng.random() < 0.3:
+            head = unh(case["head"])
+            case["head_cuts"] = [rng.randrange(1, len(head))]
     return case
 
 
@@ -643,6 +660,19 @@ def directed():
         hc["conns"][0]["idle"] = 3
         hc["conns"][1]["head_cuts"] = [17]
         out.append(hc)
+    # the server's last events and its FIN readable in the same pass / a pass later / after idle passes (seeded C15-14)
+    last = b"id: 1\ndata: first\n\n"
+    final = b"id: 2\nretry: 77\ndata: final\n\n"
+    for kind in ("until", "chunked"):
+        for fin in (0, 1, 3, None):
+            w2 = final if kind == "until" else _enc_chunks([final])
+            w1 = last if kind == "until" else _enc_chunks([last], final=False)
+            c = {"mode": "deliver", "level": "client", "body": kind, "preload": 0, "reads": [h(w1), h(w2)], "fin": fin}
+            if kind == "chunked":
+                c["chunks"] = [h(last), h(final)]
+            out.append(c)
+            c2 = dict(c, reads=[h(w1 + w2)])
+            out.append(c2)
     # the caller's own containers (empty and preloaded) at every level (seeded C15-9)
     import random as _random
     drng = _random.Random(915)
